@@ -19,12 +19,13 @@ PROGRAMS = {
     "R&x": (1, lambda R, x: R & x), "~x": (0, lambda x: ~x), "x.dual()": (0, lambda x: x.dual()),
     "(R*x).grade(1)": (1, lambda R, x: (R * x).grade(1)), "R*x*S": (2, lambda R, S_, x: R * x * S_), "x+R*x": (1, lambda R, x: x + R * x),
     "R.acp(x)": (1, lambda R, x: R.acp(x)), "x.involute()": (0, lambda x: x.involute()), "sw(R,x)": (1, None),
+    "R.inv()*x": (1, lambda R, x: R.inv() * x), "x/R": (1, lambda R, x: x / R), "x*R/2": (1, lambda R, x: x * R / 2),
 }
 RULE = ("asmatrix: case = (algebra config d<=4 quick / d<=5 thorough: signature ordering, default or custom basis or named "
         "algebra) -> all ordered pairs of basis blades (complete by bilinearity) for (E_I*E_J).asmatrix() = E_I.asmatrix() @ "
         "E_J.asmatrix(), unit first columns (injectivity), plus generated integer multivectors in arbitrary key order for "
         "linearity, the product homomorphism, first column = coefficients in canonical order, frommatrix(asmatrix(x)) = x. "
-        "expr_as_matrix: case = (config d<=3, one of 15 programs linear in the last argument, x symbolic with generated key "
+        "expr_as_matrix: case = (config d<=3, one of 18 programs linear in the last argument (incl. R.inv()*x, x/R with integer-valued numeric R: fractional matrix entries), x symbolic with generated key "
         "order, the other inputs symbolic / numeric / array-valued, optional res_like) -> y = f(.., x) and A . coeffs(x) = "
         "coeffs(y) (expanded symbolically, per array index for arrays). Non-trivial = a pair of blades that do not commute or "
         "d>=3 or a custom basis (asmatrix); a program with >= 1 other input and x of >= 2 blades (expr_as_matrix). "
@@ -198,7 +199,10 @@ def _expr(case):
         if kind == "symbolic":
             others.append(alg.multivector(name="RS"[i], keys=keys))
         elif kind == "numeric":
-            others.append(alg.multivector(keys=keys, values=[int(frac(v).numerator) or 1 for v in o["vals"]]))
+            vals_ = [int(frac(v).numerator) or 1 for v in o["vals"]]
+            if prog in ("R.inv()*x", "x/R"):
+                vals_ = [v + 3 * (1 if v > 0 else -1) if i == 0 else v for i, v in enumerate(vals_)]   # dominant first coefficient
+            others.append(alg.multivector(keys=keys, values=vals_))
         else:
             arr = np.array([[float(frac(v)) + 0.5 * t for t in range(3)] for v in o["vals"]])
             others.append(kd.mk_raw(alg, keys, arr))
@@ -211,7 +215,7 @@ def _expr(case):
         y_plain = fn(*[(o[0] if kd_is_array(o) else o) for o in others], x)
     except Exception as e:
         return Info(False, labels + ["plain-raised"], None, {"plain-raised:" + type(e).__name__: 1})
-    if case["res_like"] and len(y_plain.keys()) >= 1 and not arrays:
+    if case["res_like"] and len(y_plain.keys()) >= 1:
         yk = list(y_plain.keys())
         sel = yk[::2] if case["res_like"] == "sub" else yk[:1] + [k for k in range(2 ** d) if k not in yk][:1]
         res_like = alg.multivector(keys=tuple(sel), values=[1] * len(sel))
@@ -232,7 +236,20 @@ def _expr(case):
     def zero(expr):
         if arrays:
             return np.allclose(np.asarray(expr, dtype=float), 0.0, atol=1e-9)
-        return sympy.expand(sympy.sympify(expr)) == 0 if not isinstance(expr, (int, float)) else abs(expr) < 1e-12
+        if isinstance(expr, (int, float)):
+            return abs(expr) < 1e-12
+        e = sympy.expand(sympy.sympify(expr))
+        if e == 0:
+            return True
+        if e.atoms(sympy.Float):
+            # numeric (float) inputs: compare coefficient-wise at 1e-9 instead of demanding exact cancellation
+            try:
+                syms = sorted(e.free_symbols, key=str)
+                cs = sympy.Poly(e, *syms).coeffs() if syms else [e]
+                return all(abs(complex(c)) < 1e-9 for c in cs)
+            except Exception:
+                return False
+        return False
 
     yd = kd.to_dict(y, op=prog)
     for k in ykeys:
@@ -261,6 +278,8 @@ def _expr(case):
             except Exception as e:
                 return Info(False, labels + ["plain-raised"], None, {"plain-raised:" + type(e).__name__: 1})
             rows = [list(r_) for r_ in A]
+            if res_like is not None and list(y.keys()) != list(res_like.keys()):
+                raise Violation("res_like-selects-rows", prog, f"array-valued input: y has keys {list(y.keys())}, res_like asked for {list(res_like.keys())}")
             if len(rows) != len(ykeys) or any(len(r_) != len(xvals) for r_ in rows):
                 raise Violation("A.x=y", prog, f"A has {len(rows)} rows of lengths {[len(r_) for r_ in rows]}, expected {len(ykeys)} x {len(xvals)}")
             for i, k in enumerate(ykeys):
